@@ -455,6 +455,19 @@ def _run_pair(case, out):
             out.label("result=generic-SI")
             if _nz(want_sig) >= 2:
                 out.nontrivial = True
+        # 1b. the augmented form is the same operation
+        try:
+            a_ = qa
+            if op == "*":
+                a_ *= qb
+            else:
+                a_ /= qb
+        except Exception as ex:
+            out.fail("pair-raises", dict(det, form=op + "=", error=repr(ex)))
+            return
+        if type(a_) is not type(r) or not _same(a_, float(r)) or _get_sig(a_) != _get_sig(r) or not _same(qa, sa):
+            out.fail("pair-augmented-differs", dict(det, form=op + "=", got=repr(a_), want=repr(r)))
+            return
         # 2. the same through generic SI operands
         try:
             ga, gb = qa.asSI(), qb.asSI()
@@ -709,6 +722,17 @@ def _run_sisi(case, out):
     if s1 == s2:
         out.label("si-same-signature")
         _check_same_type(out, x, y, fx, fy, x.unit, det, si_sig=s1)
+        # comparisons act on the SI values also when one of them is not a number (an undefined result such as
+        # inf - inf): every ordering is False, like for the floats themselves
+        if not out.disc:
+            try:
+                xn = e.U.SI(float("nan"), x.unit)
+                got = (xn < y, xn <= y, xn == y, xn != y, xn >= y, xn > y, y <= xn, y >= xn)
+            except Exception as ex:
+                out.fail("same-cmp", dict(det, nan_operand=True, error=repr(ex)))
+                return
+            if got != (False, False, False, True, False, False, False, False):
+                out.fail("same-cmp", dict(det, nan_operand=True, got=got))
     else:
         out.label("si-different-signature")
         for name, fn, exc in (("add", lambda: x + y, ValueError), ("sub", lambda: x - y, ValueError),
